@@ -740,9 +740,21 @@ def interior_model(eng, res, extra=(), timeout_ms=5000, margin=Fraction(1, 10**6
         s.add(c)
     for c in extra:
         s.add(c)
-    if s.check() != z3.sat:
-        return res.model, False
-    m = s.model()
+    # prefer a non-degenerate model (no variable zero, all distinct): zeros hide differences between proxy and implementation
+    s.push()
+    rv = [v for v in eng._vars.values() if z3.is_real(v)]
+    for v in rv:
+        s.add(v != 0)
+    if len(rv) > 1:
+        s.add(z3.Distinct(*rv))
+    if s.check() == z3.sat:
+        m = s.model()
+    else:
+        s.pop()
+        s.push()
+        if s.check() != z3.sat:
+            return res.model, False
+        m = s.model()
     for attempt in range(3):
         w = _min_rel_slack(m, atoms)
         if w is None or w >= margin:
